@@ -1071,6 +1071,11 @@ theorem Building_congr {sh sh' : Shared K V} (h : SameData sh' sh) (u : List (K 
     Building sh' u ↔ Building sh u :=
   h.iff_of (P := fun sh => Building sh u) (fun _ _ _ _ _ _ => Iff.rfl)
 
+omit [DecidableEq V] in
+theorem RangeHold_congr {sh sh' : Shared K V} (h : SameData sh' sh) (todo : List (K × EId)) (acc : List (K × V)) :
+    RangeHold sh' todo acc ↔ RangeHold sh todo acc := by
+  simp only [RangeHold, HoldRead_congr h]
+
 omit [DecidableEq K] [DecidableEq V] in
 theorem Own_unlock (sh : Shared K V) (t : Tid) : ¬ Own (unlock sh) t := by simp [Own]
 omit [DecidableEq K] [DecidableEq V] in
@@ -1128,7 +1133,7 @@ theorem T_congr {sh sh' : Shared K V} (h : SameData sh' sh) {t : Tid} (ho : Own 
   | _ =>
     simp only [T, ho, h.readM, h.amended, h.dirty, h.dirtyMap, h.getP, HoldRead_congr h, HoldLoad_congr h,
       StoreTarget_congr h, Building_congr h, NewTail_congr h ho, Promoting_congr h ho, LosHold_congr h ho,
-      DelHold_congr h ho, Unlinker_congr h]
+      DelHold_congr h ho, Unlinker_congr h, RangeHold_congr h]
 
 /-- bystander version: `mu` changed hands between other goroutines or not at all -/
 theorem T_congr_mu {sh sh' : Shared K V} (h : SameData sh' sh) {t : Tid} (hm : sh'.mu = sh.mu) (pc : Pc K V)
@@ -1296,6 +1301,57 @@ theorem Building.pick {sh : Shared K V} {u : List (K × EId)} (h : Building sh u
   refine ⟨nodup_akeys_cons_aerase h.1, ?_⟩
   intro q hq
   exact h.2 q ((mem_cons_aerase h.1 hp).mp hq)
+
+/-! #### the `Range` loop -/
+
+omit [DecidableEq V] in
+/-- past the loop: the callback keys are pairwise distinct -/
+theorem RangeHold.nil_iff {sh : Shared K V} {acc : List (K × V)} :
+    RangeHold sh [] acc ↔ (acc.map Prod.fst).Nodup := by
+  unfold RangeHold
+  constructor
+  · intro h; simpa using h.1
+  · intro h; exact ⟨by simpa using h, fun p hp => by cases hp⟩
+
+omit [DecidableEq V] in
+/-- loop entry: the snapshot is the current `read.m` -/
+theorem RangeHold.snapshot {sh : Shared K V} {rm : List (K × EId)} (hrm : rm = sh.readM) (hn : (akeys rm).Nodup)
+    (hb : ∀ p ∈ rm, p.2 < sh.entries.length) : RangeHold sh rm [] := by
+  refine ⟨by simpa using hn, fun p hp => ⟨hb p hp, Or.inl ?_⟩⟩
+  rw [← hrm]
+  exact alookup_of_mem' hn hp
+
+omit [DecidableEq V] in
+/-- the choice made at `rangePick` (`picks`) -/
+theorem RangeHold.pick {sh : Shared K V} {todo : List (K × EId)} {acc : List (K × V)} (h : RangeHold sh todo acc)
+    {p : K × EId} (hp : p ∈ todo) : RangeHold sh ((p.1, p.2) :: aerase p.1 todo) acc := by
+  have hn : (akeys todo).Nodup := (List.nodup_append.mp h.1).1
+  refine ⟨?_, fun q hq => h.2 q ((mem_cons_aerase hn hp).mp hq)⟩
+  exact (((akeys_perm_cons_aerase hn hp).append_right (acc.map Prod.fst)).nodup_iff).mpr h.1
+
+omit [DecidableEq V] in
+/-- `rangeLoad` found nil/expunged: the key is skipped -/
+theorem RangeHold.skip {sh : Shared K V} {k' : K} {e' : EId} {todo : List (K × EId)} {acc : List (K × V)}
+    (h : RangeHold sh ((k', e') :: todo) acc) : RangeHold sh todo acc := by
+  refine ⟨?_, fun q hq => h.2 q (List.mem_cons_of_mem _ hq)⟩
+  have := h.1
+  simp only [akeys_cons, List.cons_append, List.nodup_cons] at this
+  exact this.2
+
+omit [DecidableEq V] in
+/-- `rangeLoad` found a value: the callback is called with `(k', w)` -/
+theorem RangeHold.push {sh : Shared K V} {k' : K} {e' : EId} {todo : List (K × EId)} {acc : List (K × V)}
+    (h : RangeHold sh ((k', e') :: todo) acc) (w : V) : RangeHold sh todo (acc ++ [(k', w)]) := by
+  refine ⟨?_, fun q hq => h.2 q (List.mem_cons_of_mem _ hq)⟩
+  have h1 := h.1
+  simp only [akeys_cons, List.cons_append] at h1
+  simp only [List.map_append, List.map_cons, List.map_nil, ← List.append_assoc]
+  exact (List.perm_append_singleton k' (akeys todo ++ acc.map Prod.fst)).nodup_iff.mpr h1
+
+omit [DecidableEq V] in
+theorem RangeHold.head {sh : Shared K V} {k' : K} {e' : EId} {todo : List (K × EId)} {acc : List (K × V)}
+    (h : RangeHold sh ((k', e') :: todo) acc) : HoldRead sh k' e' :=
+  h.2 (k', e') (List.mem_cons_self ..)
 
 end Entry
 
